@@ -160,7 +160,14 @@ func (b *BoltStorage) Load(ctx *Context, loc string) ([]Pair, error) {
 		for k, v := c.First(); k != nil; k, v = c.Next() {
 			Log(INFO|STORAGE, ctx, "BoltStorage.Load", "location", loc,
 				"key", string(k), "val", string(v))
-			data = append(data, Pair{k, v})
+			// The slices given by the cursor are only valid
+			// during this transaction (they point into the
+			// memory-mapped file), so copy them.
+			kc := make([]byte, len(k))
+			copy(kc, k)
+			vc := make([]byte, len(v))
+			copy(vc, v)
+			data = append(data, Pair{kc, vc})
 		}
 		return nil
 	})
